@@ -1137,9 +1137,13 @@ class C18Controller:
             self.out.violation("model:C18:device-not-open",
                                "after %s: clients hold services 0x%x but the device is not open (opens=%d closes=%d)"
                                % (where, u, self.rig.tr_opens, self.rig.tr_closes), self.extra())
+        elif u == 0 and is_open != 0 and self.readers():
+            # connected clients none of which holds a service: the statement requires the device open
+            # "for the union" and closed "when the last one leaves"; it does not say which for an empty union
+            self.out.count("device_open_for_clients_without_services")
         elif u == 0 and is_open != 0:
             self.out.violation("model:C18:device-not-closed",
-                               "after %s: no client holds a service but the device is still open (opens=%d closes=%d)"
+                               "after %s: the last client has left but the device is still open (opens=%d closes=%d)"
                                % (where, self.rig.tr_opens, self.rig.tr_closes), self.extra())
         self.out.count("device_state_checks")
 
@@ -1202,9 +1206,9 @@ class C18Controller:
             self.cmd(c, "free", "ack")
             self.out.count("connects")
             if c.granted & ~op["svc"]:
-                self.out.violation("model:C18:granted-not-requested",
-                                   "connect requested 0x%x strict %d, API reports 0x%x granted" % (op["svc"], op["strict"], c.granted),
-                                   self.extra())
+                # C18 speaks about the services a client "was granted", not about how grants relate to
+                # requests: evidence only (never seen)
+                self.out.count("grants_exceeding_the_request")
         else:
             self.out.count("connect_rejects")
         self.log("connect", slot=slot, proc=c.name, ok=bool(ev.get("ok")), granted=c.granted if c.connected else 0)
@@ -1228,8 +1232,7 @@ class C18Controller:
         c.sub_tick = self.rig.ticks
         self.out.count("service_changes")
         if int(ev["ret"], 16) & ~op["svc"]:
-            self.out.violation("model:C18:granted-not-requested",
-                               "update_services requested 0x%x, returned 0x%x" % (op["svc"], int(ev["ret"], 16)), self.extra())
+            self.out.count("grants_exceeding_the_request")
         self.log("svc", slot=op["c"], proc=c.name, ok=True, granted=c.granted)
         self.device_check("service change of %s (0x%x reset %d strict %d)" % (c.name, op["svc"], op["reset"], op["strict"]))
 
@@ -1446,16 +1449,14 @@ class C18Controller:
         Monitor(self).check()
         rig.trace_tail()
         if rig.tr_z:
-            # the daemon waits at most 2 x 50 ms (wall clock) for its acquisition thread to stop and
-            # then carries on without joining it; the hook saw that happen.  Whatever followed is a
-            # consequence of machine load, not of the schedule: no verdict.
-            dropped = [v["key"] for v in out.violations]
-            out.violations = []
-            out.count("schedules_void_thread_stop_deadline")
-            out.inconclusive.append("C18 schedule %s/%s: the daemon's 100 ms wall-clock deadline for stopping its acquisition "
-                                    "thread was missed (%s); findings discarded: %s"
-                                    % (self.sched.get("seed"), self.sched.get("index"), rig.tr_z[:100], dropped or "none"))
-            return
+            # Hook H1 saw the main thread enter update_services()/delete() of the capture device while the
+            # acquisition thread was still inside its read(): the daemon reconfigures or frees the device
+            # under a running reader.  (Up to /repo 0c2ef26 the daemon gave its thread 100 ms of wall-clock
+            # time to stop and then went ahead; since 912c3cd it joins the thread unconditionally, so
+            # this is not a matter of machine load any more: whenever it is seen it is a defect.)
+            out.violation("model:C18:device-changed-under-acquisition-thread",
+                          "the daemon entered update_services/delete of the capture device while its acquisition "
+                          "thread was still reading it: %s" % rig.tr_z[:160], self.extra())
         if self.aborted and not out.violations and not out.inconclusive:
             out.inconclusive.append("C18 schedule %s/%s aborted without a finding: %s"
                                     % (self.sched.get("seed"), self.sched.get("index"), self.aborted))
